@@ -161,7 +161,7 @@ def run(ctx):
         #      other pre-pass might count differently (astral characters, CR-less long lines), and a zone whose LAST lines
         #      carry every rewritable construct (NAME{q}, aliases, triple quotes); a pre-pass that computes protected
         #      ranges on one text and applies them to another exposes exactly the tail of the zone ----
-        tails = ["REPLY_TO::SUPPORT{queue}", "A->B | C{d}", 'T::"""x"""', "K :: v  ", "plain"]
+        tails = ["REPLY_TO::SUPPORT{queue}", "A->B | C{d}", 'T::"""x"""', "K :: v  ", "plain", "last\tcolumn", "\t", "x\t"]
         for k in (0, 1, 3, 8, 20, 45):
             for pre_kind in ("comment", "value", "key-block"):
                 for tail in tails:
